@@ -33,8 +33,10 @@ func readMHist(t *Toks) ([]byte, []mhOp) {
 		case "c":
 			v, _ := strconv.ParseUint(t.Next(), 16, 32)
 			o.a = int(v)
-		case "f":
+		case "f", "hd", "he":
 			o.a = t.Int()
+		case "ha":
+			o.a, o.b = t.Int(), t.Int()
 		case "h":
 			o.a, o.b, o.c = t.Int(), t.Int(), t.Int()
 		}
@@ -52,6 +54,12 @@ func applyMHOp(mb *block.MerkleBlock, o mhOp) {
 		pt.VBits[o.a] = !pt.VBits[o.a]
 	case "h":
 		pt.TxHashes[o.a][o.b] ^= byte(o.c)
+	case "ha": // the LENGTH of an entry changes: append a byte, drop the last byte, replace by an empty slice
+		pt.TxHashes[o.a] = append(pt.TxHashes[o.a], byte(o.b))
+	case "hd":
+		pt.TxHashes[o.a] = pt.TxHashes[o.a][:len(pt.TxHashes[o.a])-1]
+	case "he":
+		pt.TxHashes[o.a] = []byte{}
 	}
 }
 
@@ -111,6 +119,18 @@ func checkC20MHist(t *Toks) string {
 			}
 			continue
 		}
+		// an entry that is not 32 bytes long is not a hash: such an object is an altered proof that no
+		// wire encoding stands for, and it must be refused (chainhash.NewHash fails on the entry)
+		badLen := false
+		for _, h := range pt.TxHashes {
+			badLen = badLen || len(h) != 32
+		}
+		if badLen {
+			if got != "err" {
+				return fail("history-bad-length-hash-accepted", fmt.Sprintf("call=%d/op=%d", calls, k))
+			}
+			continue
+		}
 		fresh := "err"
 		if r := runProof(mkBlob(blob[:80], pt.TxTotalCount, pt.TxHashes, packBits(pt.VBits))); r.class == "ok" {
 			fresh = fmt.Sprintf("ok:%s:%s", hx(r.root), hexList(r.matches))
@@ -139,8 +159,11 @@ func mhistLine(blob []byte, ops []mhOp) string {
 		switch o.kind {
 		case "c":
 			b.add(strconv.FormatUint(uint64(uint32(o.a)), 16))
-		case "f":
+		case "f", "hd", "he":
 			b.addn(uint64(o.a))
+		case "ha":
+			b.addn(uint64(o.a))
+			b.addn(uint64(o.b))
 		case "h":
 			b.addn(uint64(o.a))
 			b.addn(uint64(o.b))
@@ -168,6 +191,16 @@ func genMHistCase(r *Rng, shape int) string {
 		matched = randMatch(r, n)
 	}
 	txids := randTxids(r, n)
+	special := -1 // a transaction id that ends in a zero byte (shape 10) or is all zero (shape 11), present in the proof
+	if shape == 10 || shape == 11 {
+		special = r.Intn(n)
+		matched[special] = true
+		if shape == 10 {
+			txids[special][31] = 0
+		} else {
+			txids[special] = make([]byte, 32)
+		}
+	}
 	p := mkPMT(txids, matched)
 	flags := packBits(p.bits)
 	blob := mkBlob(mkHeader(r, mkRootLevels(txids)), uint32(n), p.hashes, flags)
@@ -178,8 +211,21 @@ func genMHistCase(r *Rng, shape int) string {
 	back := mhOp{kind: "c", a: n}
 	flip := mhOp{kind: "f", a: r.Intn(8 * len(flags))}
 	hsh := mhOp{kind: "h", a: r.Intn(len(p.hashes)), b: r.Intn(32), c: 1 << uint(r.Intn(8))}
+	si := 0
+	for i, h := range p.hashes {
+		if special >= 0 && bytes.Equal(h, txids[special]) {
+			si = i
+		}
+	}
+	hi := r.Intn(len(p.hashes))
 	var ops []mhOp
 	switch shape {
+	case 9: // a surplus byte appended to an entry, then removed again
+		ops = []mhOp{x, {kind: "ha", a: hi, b: r.Pick(0, 0, 1, 0xff, r.Intn(256))}, x, {kind: "hd", a: hi}, x}
+	case 10: // the trailing zero byte of an entry cut off, then put back
+		ops = []mhOp{x, {kind: "hd", a: si}, x, {kind: "ha", a: si, b: 0}, x}
+	case 11: // an all-zero entry replaced by an empty slice
+		ops = []mhOp{x, {kind: "he", a: si}, x}
 	case 0:
 		ops = []mhOp{x, {kind: "c", a: 8}, x}
 	case 1:
@@ -217,7 +263,7 @@ func genMHistCase(r *Rng, shape int) string {
 
 func genMHist(r *Rng, n int, w *bufio.Writer) {
 	for i := 0; i < n; i++ {
-		fmt.Fprintln(w, genMHistCase(r, i%9))
+		fmt.Fprintln(w, genMHistCase(r, i%13))
 	}
 }
 
